@@ -105,7 +105,7 @@ def conf_full(seed, knobs=None):
         s.append({"op": "spawnfault", "kinds": [rng.choice(["OSError", "ValueError", None]) for _ in range(3)]})
     s.append({"op": "boot"})
     s.append({"op": "tick", "n": rng.randint(0, 8)})
-    cmds = ["incr", "decr", "set_np", "restart", "reload", "kill", "stop", "start", "status", "numprocesses",
+    cmds = ["incr", "decr", "set_np", "set_multi", "restart", "reload", "kill", "stop", "start", "status", "numprocesses",
             "signal", "list"]
     p = {"cmds": k.get("cmds", cmds), "childsel": k.get("childsel", 0.2)}
     for _ in range(rng.randint(2, k["steps"])):
